@@ -51,12 +51,13 @@ class Scope:
 
 
 class Decl:
-    __slots__ = ("name", "kind", "scope", "lines", "in_block_only")
+    __slots__ = ("name", "kind", "scope", "lines", "in_block_only", "written_before_decl")
 
     def __init__(self, name, kind, scope):
         self.name, self.kind, self.scope = name, kind, scope
         self.lines = []           # [(line, op)]  op: variable_decl / parameter_decl / method_decl
         self.in_block_only = True
+        self.written_before_decl = False   # an assignment to it precedes its first declaration in the same function
 
 
 class Occ:
@@ -80,6 +81,12 @@ class Program:
         self.module = self._scope("module", None)
         self._body(tree["body"], self.module, 0)
         self.source = "\n".join(self.lines) + "\n"
+        for o in self.occs:
+            if o.role == "write":
+                d = self.resolve(o.scope, o.name)
+                if d is not None and d.kind in ("var", "let", "const") and o.scope.function() is d.scope.function() \
+                        and o.line < min(ln for ln, _ in d.lines):
+                    d.written_before_decl = True
 
     def _scope(self, kind, parent, line=0, bk=None, name=None):
         s = Scope(kind, parent, line, bk, name)
@@ -95,10 +102,10 @@ class Program:
         d = target.decls.get(name)
         if d is None:
             d = target.decls[name] = Decl(name, kind, target)
+        if not d.lines:
+            d.in_block_only = bool(in_block)     # = the textually first declaration sits in a block
         d.lines.append((line, op))
-        if not in_block:
-            d.in_block_only = False
-        self.decl_at[(line, name)] = d
+        self.decl_at[(line, name, "param" if op == "parameter_decl" else "decl")] = d
         return d
 
     def _body(self, stmts, scope, ind):
@@ -194,11 +201,21 @@ def expected_kind(d):
     if d is None:
         return "unresolved"
     where = "module" if d.scope.kind == "module" else ("function" if d.scope.kind == "function" else "block")
+    if d.written_before_decl and d.scope.kind != "module":
+        return "variable-assigned-before-its-declaration-in-the-function"
     if d.kind in ("var", "function", "param"):
         if d.kind == "var" and d.in_block_only:
-            return where + "-var-declared-only-in-blocks"
+            return where + "-var-first-declared-in-a-block"
         return where + "-" + d.kind
     if d.scope.kind == "block":
+        if d.scope.bk != "bare" and d.kind in ("let", "const"):
+            first = min(ln for ln, _ in d.lines)
+            for s in d.scope.chain()[1:]:
+                o = s.decls.get(d.name)
+                if o is not None and o.kind in ("let", "const") and min(ln for ln, _ in o.lines) < first:
+                    return "block-let-shadowing-earlier-outer-let"
+                if s.kind == "function":
+                    break
         return "block-%s:%s" % ("let" if d.kind in ("let", "const") else d.kind, d.scope.bk)
     return where + "-" + ("let" if d.kind in ("let", "const") else d.kind)
 
@@ -291,7 +308,7 @@ def describe_row(bind, d, prog):
     """model declaration that lian's row corresponds to (by line + name), or None"""
     if d["kind"] != "decl":
         return None
-    return prog.decl_at.get((d["line"], d["name"]))
+    return prog.decl_at.get((d["line"], d["name"], "param" if d["op"] == "parameter_decl" else "decl"))
 
 
 def chosen_kind(d, md, use_scope):
